@@ -41,6 +41,8 @@ struct Driver {
   virtual size_t chunk() { return 1; }          // indices handed to a worker at once
   virtual double deadlineSec(const std::string& tier) { return tier == "quick" ? 240 : 1500; }
   virtual double scenarioTimeoutSec() { return 60; }
+  // E2 drivers (real threads, real kernel objects): a mismatch of the determinism double-run is settled by a third run
+  virtual bool tieBreakNondeterminism() { return false; }
   // static description of the explored space
   virtual std::string rule() = 0;
   virtual Json::Value bounds() { return Json::Value(Json::objectValue); }
